@@ -1,6 +1,7 @@
 package props
 
 import (
+	"bufio"
 	"fmt"
 	"math"
 	"testing"
@@ -82,10 +83,27 @@ func checkC11(c c11Case) (Outcome, error) {
 	if c.Chunk > 0 {
 		r.Plan = []int{c.Chunk}
 	}
-	v, err := detect.SingleDetect(r, c.NumByte)
 	out := Outcome{Classes: []string{"content:" + c.Kind, "delivery:" + c.Delivery}}
-	if got := r.Consumed(); got != c.NumByte {
-		return out, violation("consumed", "SingleDetect(numByte=%d) consumed %d bytes from the source", c.NumByte, got)
+	var v bool
+	var err error
+	if c.Delivery == "bufio" {
+		// the source is a *bufio.Reader that already holds the sample (and more): the capture, then a second capture of 64 zero
+		// bytes, then a marker byte. What the detection consumed is observed through what the next reads deliver.
+		stream := append(append(append([]byte{}, data...), make([]byte, 64)...), 0xA7, 0x5C)
+		br := bufio.NewReaderSize(gen.NewReader(stream), 1<<20)
+		_, _ = br.Peek(1)
+		v, err = detect.SingleDetect(br, c.NumByte)
+		v2, _ := detect.SingleDetect(br, 64)
+		m0, _ := br.ReadByte()
+		m1, _ := br.ReadByte()
+		if v2 || m0 != 0xA7 || m1 != 0x5C {
+			return out, violation("consumed", "SingleDetect(numByte=%d) on a *bufio.Reader did not consume exactly numByte bytes: the following capture of 64 zero bytes gave %v and the next two bytes are %#x %#x (want false, 0xa7 0x5c)", c.NumByte, v2, m0, m1)
+		}
+	} else {
+		v, err = detect.SingleDetect(r, c.NumByte)
+		if got := r.Consumed(); got != c.NumByte {
+			return out, violation("consumed", "SingleDetect(numByte=%d) consumed %d bytes from the source", c.NumByte, got)
+		}
 	}
 	if c.NumByte < 16 {
 		out.Classes = append(out.Classes, "numByte<16")
@@ -150,7 +168,7 @@ func genC11(t *rapid.T) c11Case {
 	if rapid.IntRange(0, 2).Draw(t, "history") == 0 {
 		c.PriorPoker = rapid.SampledFrom([]int{1, 16, 100, 255, 256, 1000}).Draw(t, "prior_poker")
 	}
-	c.Delivery = rapid.SampledFrom([]string{"", "", "", "exact", "exact+eof"}).Draw(t, "delivery")
+	c.Delivery = rapid.SampledFrom([]string{"", "", "", "exact", "exact+eof", "bufio"}).Draw(t, "delivery")
 	if rapid.IntRange(0, 3).Draw(t, "chunked") == 0 {
 		c.Chunk = rapid.SampledFrom([]int{1, 2, 7, 15, 16, 17, 512, 4096}).Draw(t, "chunk")
 	}
